@@ -58,6 +58,16 @@ Definition pather_round (c : bool) (st : pstate) (q : Z) (cs : list cstate) (d :
   (mss : list (list pmode)) (vss : list (list Z)) : round_res :=
   run_round_c c (map snd (pather_paths st q)) cs d tape mss vss.
 
+(* timeservice.go, ntpReferenceClockSCION.MeasureClockOffset for a server in another AS:
+     } else if c.pather != nil { ps = c.pather.Paths(c.remoteAddr.IA) }
+   a clock that was built without a SCION daemon address has no Pather (None): no path is offered *)
+Definition clock_paths (p : option pstate) (q : Z) : list dpath :=
+  match p with Some st => pather_paths st q | None => [] end.
+
+Definition clock_round (c : bool) (p : option pstate) (q : Z) (cs : list cstate) (d : Z) (tape : list Z)
+  (mss : list (list pmode)) (vss : list (list Z)) : round_res :=
+  run_round_c c (map snd (clock_paths p q)) cs d tape mss vss.
+
 (* ---- property oracle at this level ----
    "every participating client probes over a different path ... and no more clients take part than there are
    paths", where the paths are those the daemon last reported for the server's IA (`truth`, identities pairwise
